@@ -271,6 +271,7 @@ func c16Accesses(r *Run, g *G, h c16Hier, k int) []c16Access {
 	}
 	// isinstance over the built-in exception hierarchy and a class derived from it
 	add("isinstance.exceptions", "rec('isinstance exceptions', lambda: (isinstance(KeyError('k'), LookupError), isinstance(KeyError('k'), KeyError), isinstance(KeyError(), ValueError), isinstance(ZeroDivisionError(), (TypeError, ArithmeticError)), isinstance(5, Exception), isinstance(Exception, Exception)))")
+	add("isinstance.exception-with-mixin-first", "class MixE:\n    tag = 'mix'\nclass XM(MixE, ValueError):\n    pass\ndef caught(e, cls):\n    try:\n        raise e\n    except cls:\n        return True\n    except Exception:\n        return False\nrec('exception with a plain first base', lambda: (isinstance(XM('a'), ValueError), isinstance(XM('a'), MixE), caught(XM('a'), ValueError), caught(XM('a'), KeyError), XM('a').tag, XM('a', 2).args))")
 	add("isinstance.user-exception", "class XE(LookupError):\n    pass\nrec('isinstance user exception', lambda: (isinstance(XE('a'), LookupError), isinstance(XE('a'), XE), isinstance(XE('a'), KeyError), isinstance(KeyError('a'), XE), XE('a', 2).args))")
 	// writes and deletes: only the object they are applied to changes
 	if k < 0 {
